@@ -126,3 +126,21 @@ def maskAtoms (h : Nat) (atoms : List String) (m : Nat) : List (String × Nat) :
     if maskTrace atoms m k a then some (a, k) else none
 
 end TelSpec
+
+namespace TelSpec
+
+/-! ### Temporal stable models, propositional-level definition -/
+
+/-- `W ≤ T` on the positions `0..h` -/
+def TraceLe (h : Nat) (W T : Trace) : Prop := ∀ k, k ≤ h → ∀ a, W k a = true → T k a = true
+/-- `W = T` on the positions `0..h` -/
+def TraceEq (h : Nat) (W T : Trace) : Prop := ∀ k, k ≤ h → ∀ a, W k a = T k a
+
+/-- `T` is a temporal stable model of `P` over traces of length `h+1`: a total THT model `(T,T)` such
+    that no `(W,T)` with `W` strictly below `T` is a THT model (temporal equilibrium logic on finite
+    traces). -/
+def TSM (h : Nat) (P : TProg) (T : Trace) : Prop :=
+  (∀ r ∈ P, r.sat h T T = true) ∧
+  ∀ W : Trace, TraceLe h W T → (∀ r ∈ P, r.sat h W T = true) → TraceEq h W T
+
+end TelSpec
